@@ -48,6 +48,11 @@ CLAIMED = {
    text="Structural necessary conditions decided for every function that begins a transaction: rollback on the callback's error edge on all paths and no commit there; commit on the success edge; a deferred function that itself calls recover(), rolls back on the recovered edge and re-panics with the recovered value; no commit in a deferred function without its own recover()==nil test; no commit after rollback; each driver's BulkInsert executes at most one statement unless inside a transaction; a *sql.Tx stored in a context is read back somewhere.",
    note="Does not cover what the database does on commit/rollback, nor cancelled contexts inside the driver. Known finding: txContextKey is written and never read (ORM calls inside ORM.Transaction run outside the transaction). Trusted: go/types, go/ssa.",
    ref="DESIGN.md §3 C14"),
+ "C12": dict(
+   technique="static analysis: who-may-call rule for reflection, guard-edge/must-pass-through path queries in CallMethod and canonicalMethodName, allow-list table extraction and who-may-write rule, panic-site audit (interface equality, unchecked assertions) over provider packages, reachable-surface enumeration from method sets",
+   text="Structural necessary conditions decided at every site: reflective lookup/call only inside the CallMethod gate; MethodByName only on the allow-list's accepted edge and with its canonical spelling; canonicalMethodName says yes only for keys of allowedMethods; reflect.Call only after an arity comparison on every path and with arguments that passed AssignableTo (typed zero for null); the allow-list has no case-duplicates, contains every provider-table entry and is never written after init; provider packages contain no unguarded interface ==/!= and no unchecked assertion on values from interface parameters; direct (non-reflective) provider calls use allow-listed names. Evidence lists each provider type's reachable method surface.",
+   note="Does not cover what an allow-listed method does with well-typed arguments. Trusted: go/types method sets, go/ssa.",
+   ref="DESIGN.md §3 C12"),
 }
 
 NA_REASONS = {}
